@@ -357,8 +357,17 @@ def solve(ob: Obligation, timeout_s=60.0, conditioned=True, confirm=None, canary
                 cands.append(_model_values(s, atoms, bvars))
             for vals, bv, m in cands:
                 res = Result("sat", vals, bv, t_total, "abstract-model witness confirmed by replay on the real code", m)
+                fvals = {k: float(v) for k, v in res.var_values().items()}
+                fbv = {k: bool(v) for k, v in bv.items()}
+                # a model of the ABSTRACT query need not satisfy the obligation's assumptions on the concrete input (their
+                # atoms were unconstrained): such a candidate says nothing, whatever the real code does on it
                 try:
-                    ok = confirm({k: float(v) for k, v in res.var_values().items()}, {k: bool(v) for k, v in bv.items()})
+                    if not all(S.eval_bool(a, fvals, fbv) for a in ob.assumptions):
+                        continue
+                except Exception:  # noqa: BLE001 - e.g. uninterpreted functions: cannot be evaluated, keep the candidate
+                    pass
+                try:
+                    ok = confirm(fvals, fbv)
                 except Exception:  # noqa: BLE001
                     ok = False
                 if ok:
